@@ -6,6 +6,7 @@
 //!   -> RETURNED <micros>       Server::run returned that long after the trigger
 //!   <- dump <hexkey> ...       -> VAL <hexkey> <hexvalue|nil|ERR:...> per key, then DUMPED
 //!   <- stats                   -> STATS <json>   (shim counters: hint files created, unlinks, delays)
+//!   <- fail <cls> <kind> <nth> <errno>   -> ARMED (the nth matching file-system call from now on fails once)
 //!   <- fdshort <ms>            -> SHORT <n> once no descriptor can be allocated, RESTORED after <ms>
 //!   <- exit                    leave (the store is dropped first)
 
@@ -172,6 +173,14 @@ pub fn main(args: &[String]) -> i32 {
                 let unlinks = evs.iter().filter(|e| e.kind == shim::K_UNLINK && e.result == 0).count();
                 let d = handle.verif_dump();
                 println!("STATS {}", serde_json::json!({"hint_files_created": hints, "unlinks": unlinks, "delays": shim::delays_done(), "readers_available": d.readers_available, "readers_capacity": d.readers_capacity}));
+            }
+            Some("fail") => {
+                // arm one failing call in this process: fail <class mask> <file kind mask> <nth> <errno>
+                let v: Vec<i64> = it.map(|x| x.parse().unwrap_or(0)).collect();
+                if v.len() == 4 {
+                    shim::fail(v[0] as u32, v[1] as u32, v[2], v[3] as i32);
+                }
+                println!("ARMED");
             }
             Some("fdshort") => {
                 // descriptor shortage for that many milliseconds: the limit is lowered to just above
